@@ -486,11 +486,11 @@ def rule_R6(ctx):
     cond_lits = set()
     for blk, t in Q.calls(b, "Vec::<T, A>::push"):
         for c in Q.canon_conds(P, T.dom_conds(b, S, blk)):
-            if c[0] == "cmp" and c[1] == "Eq":
+            if c[0] == "cmp" and c[1] in ("Eq", "Ne"):
                 for side in (c[2], c[3]):
                     ss = T.strip(side)
                     if ss[0] == "const" and isinstance(ss[1], str):
-                        cond_lits.add((ss[1], c[4]))
+                        cond_lits.add((ss[1], (c[1] == "Eq") == c[4]))
     ctx.check(("cookie", False) in cond_lits and ("referer", False) in cond_lits, "R6", "request:cookie-referer-split",
               "headers other than cookie / referer are pushed to the ordered list", "cookie/referer exclusion from the header list changed: %s" % sorted(cond_lits), ctx.loc(b))
     # parse_request_line: version restricted, method validated, three parts
